@@ -1335,6 +1335,61 @@ def oracle_range_bounds(run: Run) -> None:
                         {"source": "{{ (%s..%s) | first }}" % (sp, sp), "implementation": out[1]})
 
 
+# ---------------------------------------------------------------- string literal as a for-loop offset
+
+OFFSET_STRINGS = ["continue", "continue!", "Continue", " continue", "continu", "1", "2", "01", "0", "", "x", "1.5", "-1", "9", "١"]
+
+
+def oracle_for_offset(run: Run) -> None:
+    """`offset: <string literal>`: the string is converted to a number like any
+    other value; only the bare word `continue` is the keyword (fix 0005)."""
+    from liquid2.exceptions import LiquidTypeError
+    im, r = run.im, run.r
+    data = {"a": [1, 2, 3, 4]}
+    head = "{% for x in a limit: 2 %}{{ x }}{% endfor %}|"
+    for s in OFFSET_STRINGS:
+        try:
+            n: int | None = int(s)
+        except ValueError:
+            n = None
+        for q in (SQ, DQ):
+            raws = {"".join(spellings(c, q)[0] for c in s), "".join(spellings(c, q)[-1] for c in s),
+                    random_spelling(r, q, s, True)}
+            for raw in sorted(raws):
+                for tag, fmt in (("for", "{%% for x in a offset: %s %%}{{ x }}{%% endfor %%}"),
+                                 ("for=", "{%% for x in a offset=%s limit: 9 %%}{{ x }}{%% endfor %%}")):
+                    src = head + fmt % lit(q, raw)
+                    want = None if n is None else "12|" + "".join(map(str, data["a"][min(max(n, 0), 4):]))
+                    for mode in ("sync", "async"):
+                        im.mode = mode
+                        try:
+                            out = attempt(im.render, src, data)
+                        finally:
+                            im.mode = "sync"
+                        run.count("oracle_renders")
+                        run.count("for_offset_renders")
+                        ok = out == ("ok", want) if want is not None else (out[0] == "err" and isinstance(out[1], LiquidTypeError))
+                        if not ok:
+                            got = out[1] if out[0] == "ok" else type(out[1]).__name__
+                            run.fail("literal-value:for-offset" + (":async" if mode == "async" else ""),
+                                     f"{src!r} ({'render_async' if mode == 'async' else 'render'}) gives {got!r}; the offset is the "
+                                     f"string {s!r}, so it must " + (f"write {want!r}" if want is not None else "raise LiquidTypeError"),
+                                     {"source": src, "mode": mode, "data": data, "offset_string": s, "got": str(got),
+                                      "intended": want if want is not None else "LiquidTypeError"})
+        run.nontrivial.add("fo:" + s)
+    # the keyword itself still resumes
+    src = head + "{% for x in a offset: continue %}{{ x }}{% endfor %}"
+    for mode in ("sync", "async"):
+        im.mode = mode
+        try:
+            out = attempt(im.render, src, data)
+        finally:
+            im.mode = "sync"
+        if out != ("ok", "12|34"):
+            run.fail("for-offset-keyword", f"{src!r} gives {out[1]!r}, the keyword continue resumes after the first loop",
+                     {"source": src, "mode": mode})
+
+
 # ---------------------------------------------------------------- auto_escape x literal positions
 
 AE_TEMPLATES = {"p": "{{ s }}"}
@@ -1395,8 +1450,8 @@ def ae_environments(im: Impl) -> dict[bool, Any]:
 
 def oracle_autoescape(run: Run, triples: list[tuple[str, str, str]]) -> None:
     """auto_escape off/on x every literal position: what is written is the
-    literal's text (for an interpolated string: its value, escaped as a whole
-    under auto_escape since it mixes in data)."""
+    literal's text; in an interpolated string the literal parts are written as
+    they are and only the interpolated values are escaped (fix 0004)."""
     from markupsafe import escape
     im = run.im
     envs = ae_environments(im)
@@ -1423,20 +1478,35 @@ def oracle_autoescape(run: Run, triples: list[tuple[str, str, str]]) -> None:
                              f"auto_escape={ae}, position {name}: literal {literal!r} writes {got!r}, written {want!r}",
                              {"auto_escape": ae, "position": name, "source": src, "data": data,
                               "intended": want, "got": got})
-        # interpolated string around the literal text
+        # interpolated strings around the literal text: the literal parts are template text
+        # (as in the equivalent capture block / append chain), only the value of y is escaped
         if not _has_interp(raw):
-            src = "{{ " + q + raw + "${y}" + raw + q + " }}"
-            value = s + xv + s
-            for ae, env in envs.items():
-                out = attempt(lambda env=env, src=src: env.from_string(src).render(y=xv))
-                run.count("oracle_renders")
-                run.count("autoescape_renders")
-                want = str(escape(value)) if ae else value
-                if out != ("ok", want):
-                    got = out[1] if out[0] == "ok" else type(out[1]).__name__
-                    run.fail(f"literal-value:auto_escape={ae}:interpolated_string",
-                             f"auto_escape={ae}: {src!r} writes {got!r}, its value is {value!r}",
-                             {"auto_escape": ae, "source": src, "data": {"y": xv}, "intended": want, "got": got})
+            forms = [("{{ %s }}", "", ""), ("{%% assign z = %s %%}{{ z }}", "", ""), ("{%% echo %s %%}", "", ""),
+                     ("{{ 'x' | append: %s }}", "x", ""), ("{{ %s | append: 'x' }}", "", "x"),
+                     ("{%% capture c %%}{{ %s }}{%% endcapture %%}{{ c }}", "", "")]
+            for yv in (xv, ""):
+                tlit = q + raw + "${y}" + raw + q
+                for fi, (fmt, pre, post) in enumerate(forms):
+                    if fi and (yv == "" or not any(c in s for c in AE_SPECIALS)):
+                        continue
+                    src = fmt % tlit
+                    for ae, env in envs.items():
+                        for mode in ("sync", "async"):
+                            im.mode = mode
+                            try:
+                                out = attempt(lambda env=env, src=src: im.run_template(env.from_string(src), {"y": yv}))
+                            finally:
+                                im.mode = "sync"
+                            run.count("oracle_renders")
+                            run.count("autoescape_renders")
+                            want = pre + s + (str(escape(yv)) if ae else yv) + s + post
+                            if out != ("ok", want):
+                                got = out[1] if out[0] == "ok" else type(out[1]).__name__
+                                run.fail(f"literal-value:auto_escape={ae}:interpolated_string",
+                                         f"auto_escape={ae}, {'render_async' if mode == 'async' else 'render'}: {src!r} with "
+                                         f"y={yv!r} writes {got!r}; its literal text is {s!r}, so it must write {want!r}",
+                                         {"auto_escape": ae, "mode": mode, "source": src, "data": {"y": yv},
+                                          "intended": want, "got": got})
         if any(c in s for c in AE_SPECIALS):
             run.nontrivial.add(f"ae:{q}:{raw}")
 
@@ -1666,6 +1736,8 @@ def main(chk: C.Check, build: C.Build) -> None:
     lap("oracle_autoescape")
     oracle_range_bounds(run)
     lap("oracle_range_bounds")
+    oracle_for_offset(run)
+    lap("oracle_for_offset")
     oracle_json_history(run)                     # before any other use of the json filter in this process
     json_history_finish(run, history_procs)
     lap("oracle_json_history")
